@@ -137,6 +137,33 @@ def replay(rec: dict) -> bool:
     return not fails
 
 
+
+# ------------------------------------------------------------------------------------------------ counter-model -> replay
+_CM_METHOD = {"reset": "reset", "power_off": "shutdown", "power_on": "startup", "apply_timestep": None}
+
+
+def _case_from_counter_model(line: str) -> Optional[dict]:
+    """A counter-model of a translated power method (a line of drv_c12prog) turned into the SHORTEST request sequence that puts a
+    real node into that state and calls the method: only for nodes a fresh episode reaches at once (ON with nothing pending; OFF
+    after a shutdown), durations >= 0. None when the node is not of that kind (the rig families then have to find the input)."""
+    w = line.split(" | ")[0].split()
+    meth = w[0]
+    f = dict(t.split("=", 1) for t in w[2:] if "=" in t)
+    try:
+        up, down = int(f["up_dur"]), int(f["down_dur"])
+    except (KeyError, ValueError):
+        return None
+    if meth not in _CM_METHOD or up < 0 or down < 0 or f.get("rs") != "false" or f.get("up_cd") != "0" or f.get("down_cd") != "0":
+        return None
+    call = [{"op": "req", "node": 0, "key": _CM_METHOD[meth]}] if _CM_METHOD[meth] else [{"op": "tick"}]
+    if f.get("st") == "ON":
+        pre = []
+    elif f.get("st") == "OFF":
+        pre = [{"op": "req", "node": 0, "key": "shutdown"}] + [{"op": "tick"}] * (down + 1 if down > 0 else 0)
+    else:
+        return None
+    return rig.pair_case(up, down, 1, 1, pre + call + [{"op": "tick"}] * (up + down + 2))
+
 # ------------------------------------------------------------------------------------------------ workers
 def _work(case: dict):
     try:
@@ -160,6 +187,7 @@ def _run_impl_all(cases: List[dict], workers: int):
 def run(ctx: Ctx):
     import time
     t0 = time.time()
+    cm_cases: List[Tuple[str, Optional[dict]]] = []
     with lean_lock():
         ctx.extract("Power", x_power.emit)
         ctx.extract("PowerProg", x_prog.emit)
@@ -179,6 +207,7 @@ def run(ctx: Ctx):
                            "correspondence", not found and len(tried) == 6, " || ".join(found)[:3000] or res.stdout[:500])
                 for l in found:
                     ctx.notes.append("counter-model of a translated power method: " + l[:1200])
+                    cm_cases.append((l.split()[0], _case_from_counter_model(l)))
                 if tried:
                     ctx.notes.append("counter-model search: " + "; ".join(tried))
             else:
@@ -187,6 +216,37 @@ def run(ctx: Ctx):
         except Exception as e:
             ctx.oblige("model:translated power methods agree with the model on every small node (counter-model search)",
                        "correspondence", False, f"{type(e).__name__}: {e}")
+    # a counter-model of a broken `C12_gen_*_sem` theorem is replayed on the REAL code at once: the shortest request sequence that
+    # reaches the node and calls the method, compared with the proved model like any other case, then shrunk
+    for meth, cm in cm_cases:
+        if cm is None:
+            ctx.notes.append(f"counter-model of {meth}: not a node a fresh episode reaches at once; left to the rig families")
+            continue
+        try:
+            fails_cm, *_ = _eval_case(cm)
+        except Exception as e:
+            ctx.notes.append(f"counter-model of {meth}: replay failed to run ({type(e).__name__}: {e})")
+            continue
+        if not fails_cm:
+            ctx.notes.append(f"counter-model of {meth}: the real code agrees with the model on the derived request sequence "
+                             "(the difference is not observable through requests from this node)")
+            continue
+        hit = fails_cm[0]
+        key = json.dumps(hit["sig"], sort_keys=True)
+
+        def still_cm(ops, cm=cm, key=key):
+            fs, *_ = _eval_case(dict(cm, ops=ops))
+            return any(json.dumps(f["sig"], sort_keys=True) == key for f in fs)
+        small = dict(cm, ops=shrink_ops(cm["ops"], still_cm, budget=40))
+        fs, lines2, impl2, model2 = _eval_case(small)
+        hit2 = next((f for f in fs if json.dumps(f["sig"], sort_keys=True) == key), None)
+        if hit2 is None:
+            small, hit2 = cm, hit
+            fs, lines2, impl2, model2 = _eval_case(cm)
+        ctx.violation(hit2["sig"], hit2["what"], {"case": small, "lines": lines2, "impl": impl2, "model": model2,
+                                                  "from": f"counter-model of the translated {meth} (C12_gen_{meth}_sem)"})
+        ctx.notes.append(f"counter-model of {meth} replayed on the real code: {len(small['ops'])} operation(s): "
+                         + json.dumps(small["ops"])[:300] + " -> " + hit2["what"][:300])
     ctx.cov["rule"] = ("case = (node classes, start-up/shut-down durations, op sequence over shutdown/startup/reset requests, ticks, "
                        "pings, other node-level requests, frame injections); every answer, every operating_state assignment and "
                        "the whole modelled state after every op are compared; a case is non-trivial when some node leaves ON or "
